@@ -111,7 +111,7 @@ def judge(ctx, cases, results, codes):
             else: stats["deterministic"] += 1
         if c["mode"] == "file":
             p = r["paths"]
-            ok = p["dir"]["ok"] and p["dir"]["returned_equal"] and p["dir"]["file_equal"] and (not p["missing"]["ok"]) and p["missing"]["io_error"] \
+            ok = p["dir"]["ok"] and p["dir"]["returned_equal"] and p["dir"]["file_equal"] and p.get("stale", {"file_equal": False})["file_equal"] and (not p["missing"]["ok"]) and p["missing"]["io_error"] \
                  and (not p["regular_file"]["ok"]) and p["regular_file"]["io_error"] and p.get("symlink_dir", {"ok": True, "file_equal": True})["ok"] and p.get("symlink_dir", {"file_equal": True})["file_equal"] \
                  and p.get("odd_names", {"ok": True})["ok"]
             if ok: stats["file_ok"] += 1
@@ -137,7 +137,7 @@ def run(ctx):
     return finish(ctx, trusted=TRUSTED, evaluations=len(cases), nontrivial=len(cases),
                   rule="random exportable circuits of 0..30(120) statements on 1..6 qubits with measurement groups in all bases and Pauli-string gates: real text lexed in Coq and compared token for token "
                        "with the export model built from the circuit; circuits of 50..1500(5000) gates exported under pools 1..16, twice each, and from 6-8 separately built equal circuits: bytes compared; "
-                       "file written into a directory (with a longer stale file present), a missing path, a regular file, a symlink to a directory; an unsupported operator",
+                       "file written into a directory (with a longer, an equally long, a shorter and an empty stale file present), a missing path, a regular file, a symlink to a directory; an unsupported operator",
                   samples=[brief(c) for c in cases[:1]], extra={"verdict_counts": stats})
 
 def replay(ctx, path):
